@@ -55,8 +55,8 @@ structure DS where
 
 def evStr (e : Ev) : String :=
   match e with
-  | .create p t u => if u == nul then s!" | create p{p} t{t} null" else s!" | create p{p} t{t} u{slotOf u}"
-  | .free p u => s!" | free p{p} u{slotOf u}"
+  | .create p t u m => if u == nul then s!" | create p{p} t{t} null" else s!" | create p{p} t{t} u{slotOf u} m{m}"
+  | .free p u n => s!" | free p{p} u{slotOf u} m{n}"
   | .use p u => s!" | push p{p} u{slotOf u}"
 
 /-- print and account the events logged since the last call -/
@@ -65,8 +65,8 @@ def flushEvents (d : DS) : DS × String :=
   let evs := (d.a.log.take n).reverse
   let used := evs.foldl (fun (u : Array Bool) e =>
     match e with
-    | .create _ _ x => if x == nul then u else u.setIfInBounds (slotOf x).toNat true
-    | .free _ x => u.setIfInBounds (slotOf x).toNat false
+    | .create _ _ x _ => if x == nul then u else u.setIfInBounds (slotOf x).toNat true
+    | .free _ x _ => u.setIfInBounds (slotOf x).toNat false
     | _ => u) d.used
   ({ d with printed := d.a.log.length, used := used }, String.join (evs.map evStr))
 
@@ -81,7 +81,7 @@ def nextUnit (d : DS) (p : Nat) (t : Nat) : UInt64 :=
 /-- create_unit was called iff a `create` event for pool p was logged: then the fail flag is consumed -/
 def consumeFail (d : DS) (before : Nat) (p : Nat) : DS :=
   let n := d.a.log.length - before
-  if (d.a.log.take n).any (fun e => match e with | .create p' _ _ => p' == p | _ => false) then
+  if (d.a.log.take n).any (fun e => match e with | .create p' _ _ _ => p' == p | _ => false) then
     { d with failNext := d.failNext.setIfInBounds p false }
   else d
 
